@@ -11,22 +11,34 @@ FLAGS = ["DISABLE_SESSION_STATE", "DISABLE_PARTICIPANT_JOIN_BROADCAST", "DISABLE
          "DISABLE_ENTITY_ADD_BROADCAST", "DISABLE_ENTITY_DELETE_BROADCAST", "DISABLE_ENTITY_UPDATE_POSE_BROADCAST",
          "DISABLE_CUSTOM_MESSAGE_BROADCAST", "DISABLE_ENTITY_COMPONENT_ADD_BROADCAST",
          "DISABLE_ENTITY_COMPONENT_UPDATE_BROADCAST", "DISABLE_ENTITY_COMPONENT_DELETE_BROADCAST"]
-UNKNOWN = ["DISABLE_NOTHING", "disable_session_state", "ENABLE_EVERYTHING"]
+UNKNOWN = ["DISABLE_NOTHING", "disable_session_state", "ENABLE_EVERYTHING", "", " ", "DISABLE_SESSION_STATE "]
+
+
+def mixed(rnd, known, k):
+    """the known flags with k unknown names at random positions of the list (first, between, last) and now and then a flag
+    named twice: the list is a set of names, its order and its other entries mean nothing"""
+    s = list(known)
+    for u in rnd.sample(UNKNOWN, k):
+        s.insert(rnd.randint(0, len(s)), u)
+    if known and rnd.random() < 0.3:
+        s.insert(rnd.randint(0, len(s)), rnd.choice(known))
+    return s
 
 
 def flag_sets(tier, rnd):
-    sets = [[]] + [[f] for f in FLAGS] + [list(FLAGS), [UNKNOWN[0]], list(FLAGS) + UNKNOWN]
+    sets = [[]] + [[f] for f in FLAGS] + [list(FLAGS), [UNKNOWN[0]], list(FLAGS) + UNKNOWN, UNKNOWN + list(FLAGS),
+                                           ["", FLAGS[0]], [FLAGS[1], "", FLAGS[0], FLAGS[4]]]
     if tier == "thorough":
         for r in range(2, 10):
             for c in itertools.combinations(FLAGS, r):
                 sets.append(list(c))
-        for _ in range(60):
-            sets.append(rnd.sample(FLAGS, rnd.randint(1, 9)) + rnd.sample(UNKNOWN, rnd.randint(1, 2)))
+        for _ in range(120):
+            sets.append(mixed(rnd, rnd.sample(FLAGS, rnd.randint(1, 9)), rnd.randint(1, 3)))
     else:
         for _ in range(24):
             s = rnd.sample(FLAGS, rnd.randint(2, 9))
-            if rnd.random() < 0.3:
-                s += rnd.sample(UNKNOWN, 1)
+            if rnd.random() < 0.4:
+                s = mixed(rnd, s, rnd.randint(1, 2))
             sets.append(s)
     return sets
 
